@@ -467,6 +467,21 @@ func (e *c5e) requiredUnderHidden() bool {
 	})
 }
 
+// embedsClosedDirectly: some struct literal directly embeds `#Def` or `close(...)`.
+func (e *c5e) embedsClosedDirectly() bool {
+	return e.anyNode(func(n *c5e) bool {
+		if n.op != '{' {
+			return false
+		}
+		for _, d := range n.decls {
+			if d.kind == 'e' && (d.v.op == 'd' || d.v.op == 'c') {
+				return true
+			}
+		}
+		return false
+	})
+}
+
 // recConj: a conjunction one of whose operands is (or embeds) a definition reference.
 func (e *c5e) recConj() bool {
 	if e.op != '&' {
@@ -1078,17 +1093,17 @@ type c5case struct {
 }
 
 type c5out struct {
-	uni, fill string // classes through Value.Unify / Value.FillPath ("" = not asked)
-	tag     string            // known-finding class of the accepted case (attributed), or ""
-	atag    map[string]string // per label: known class of a wrong Allows=true answer (attributed)
-	skip    bool              // an embedded value is erroneous on its own (region the model does not represent)
-	cs      c5case
-	res     c5res
-	sole    string // class of `{schema} & data`
-	optAbs  string // class of schema & {zz?: _|_} & data
-	opened  string // class of the body when the schema is d(body) / c(body)
-	fresh   string // class with zz: 1 added to the data (open schemas only)
-	doFresh bool
+	uni, fill string            // classes through Value.Unify / Value.FillPath ("" = not asked)
+	tag       string            // known-finding class of the accepted case (attributed), or ""
+	atag      map[string]string // per label: known class of a wrong Allows=true answer (attributed)
+	skip      bool              // an embedded value is erroneous on its own (region the model does not represent)
+	cs        c5case
+	res       c5res
+	sole      string // class of `{schema} & data`
+	optAbs    string // class of schema & {zz?: _|_} & data
+	opened    string // class of the body when the schema is d(body) / c(body)
+	fresh     string // class with zz: 1 added to the data (open schemas only)
+	doFresh   bool
 }
 
 func c5run(cs c5case, direct bool) c5out {
@@ -1218,11 +1233,19 @@ func c5emit(c *Cfg, o c5out) {
 		// source-level unification of the same evaluator rejects) — a discrepancy between the
 		// two entry points of the unchanged tree, see known-findings.
 		ut, ft := tag, tag
-		if o.uni == "ok" && o.res.class == "err" {
-			ut = "api-unify-accepts-what-source-rejects"
+		if o.res.class == "err" && o.cs.schema.embedsClosedDirectly() {
+			// shape: a struct literal directly embeds a definition reference or a close() call
+			if o.uni == "ok" {
+				ut = "api-unify-loses-embedded-closedness"
+			}
+			if o.fill == "ok" {
+				ft = "api-fillpath-loses-embedded-closedness"
+			}
 		}
-		if o.fill == "ok" && o.res.class == "err" {
-			ft = "api-fillpath-accepts-what-source-rejects"
+		if o.res.class == "ok" && o.fill == "err" && o.cs.schema.recConj() {
+			// shape: a conjunction with a definition operand; FillPath closes the other
+			// operands' fields recursively, as an embedding would (cf. finding 4)
+			ft = "api-fillpath-closes-like-embedding"
 		}
 		c.OpTag("O", ut, "uni "+sw+" "+dw, o.uni)
 		c.OpTag("O", ft, "fill "+sw+" "+dw, o.fill)
